@@ -163,6 +163,18 @@ var truncations = []struct{ src, kind string }{
 	{"@if(x.f(1)", "a"}, {"@if((1 + 2)", "a"}, {"@each(v in [1, 2]", "a"},
 }
 
+// block openers left unclosed, and closed constructs to nest in them
+var unclosedOuters = []string{
+	"@if(x)", "@if(x)a@else", "@if(x)a@elseif(y)", "@if(x)@elseif(y)@else", "@each(v in a)", "@each(v in a)q@else", "@for(;;)", "@for(i = 0; i < 1; i++)q@else",
+	"@insert(\"o\")", "@component(\"c\")@slot(\"s\")", "@component(\"c\")@slot(\"s\")x@end", "@component(\"c\")@slot",
+}
+
+var closedInners = []string{
+	"", "@if(x)@end", "@if(x)a@end", "@if(x)@else@end", "@if(x)a@elseif(y)@end", "@if(x)@elseif(y)@else@end", "@each(v in a)@end", "@each(v in a)b@else@end", "@each(v in a)@else@end",
+	"@for(;;)@end", "@for(;;)@else@end", "@insert(\"a\")@end", "@insert(\"a\")b@end", "@insert(\"a\", 1)", "@component(\"d\")@slot(\"s\")@end@end", "@component(\"d\")@slot@end@end",
+	"@component(\"d\")@slot(\"s\")z@end @slot@end@end", "@component(\"d\")", "@component(\"d\", {a: 1})", "{{-- c --}}", "{{ 1 }}", "@break", "@continue", "@breakIf(x)", "@dump(x)", "@reserve(\"r\")", "@use(\"l\")",
+}
+
 var truncationPrefixes = []string{"", "text ", "{{ 1 }}", "@if(true)in\n", "line1\nline2\n", "{{-- c --}}", "@each(q in [1])"}
 
 func init() {
@@ -214,6 +226,45 @@ func init() {
 					src += illegalTable[i%len(illegalTable)]
 					c.Sample(map[string]any{"source": src, "must_fail_because": "an illegal character in code"})
 					parseContract(c, src, "code with an illegal character")
+				}})
+			// an unclosed block around every closed construct (empty and non-empty bodies): the inner
+			// @end must not stand in for the outer one
+			secs = append(secs, core.Section{Name: "unclosed-nesting", Exhaustive: true, N: len(unclosedOuters) * (len(unclosedOuters) + 1) * len(closedInners),
+				Run: func(c *core.Ctx, i int) {
+					in := closedInners[i%len(closedInners)]
+					i /= len(closedInners)
+					o1 := unclosedOuters[i%len(unclosedOuters)]
+					o2 := ""
+					if k := i / len(unclosedOuters); k > 0 {
+						o2 = unclosedOuters[k-1]
+					}
+					for _, tail := range []string{"", " ", "text", "\n<p>after</p>\n", in} {
+						src := o2 + o1 + in + tail
+						c.Sample(map[string]any{"source": src, "must_fail_because": spanNames["b"]})
+						parseContract(c, src, spanNames["b"])
+						if o2 != "" {
+							parseContract(c, src+"@end", spanNames["b"])
+						}
+					}
+				}})
+			// hostile bytes and more text after the point of truncation never close anything
+			secs = append(secs, core.Section{Name: "truncations-with-hostile-tail", Exhaustive: true, N: len(truncations),
+				Run: func(c *core.Ctx, i int) {
+					t := truncations[i]
+					for _, b := range []string{"\x00", "\xff", "\x7f", "\x01", "\\"} {
+						for _, tail := range []string{"", " b", "\n<p>y</p>", "x\x00", " \"", " '", " )", " }}", " --}}", "@end"} {
+							switch {
+							case t.kind == "s" && strings.ContainsAny(tail, "\"'"), t.kind == "a" && strings.Contains(tail, ")"),
+								t.kind == "c" && strings.Contains(tail, "--}}"), t.kind == "b" && strings.Contains(tail, "@end"),
+								t.kind == "o" && strings.Contains(tail, "}"):
+								continue
+							}
+							if t.kind == "c" && strings.HasSuffix(t.src, "-") && b == "\\" {
+								continue
+							}
+							parseContract(c, t.src+b+tail, spanNames[t.kind])
+						}
+					}
 				}})
 			secs = append(secs, core.Section{Name: "call-syntax-table", Exhaustive: true, N: len(mustReturnTable),
 				Run: func(c *core.Ctx, i int) { parseContract(c, mustReturnTable[i], "") }})
